@@ -154,6 +154,8 @@ impl Oracle {
         //      object while a step-down is queued is not acting.
         if v.role == RoleKind::Leader {
             self.leader_seen.entry(v.term).or_default().insert(v.id);
+            // commit index inherited from the follower role is not an advance made as leader
+            self.c09_checked.entry((v.id, v.term)).or_insert(v.commit);
         }
         for r in out_reqs {
             self.acted.entry(r.term).or_default().insert(r.leader_id);
